@@ -130,10 +130,10 @@ def _np_reduce(f, members, skipna):
         if keep.size == 0:
             # nothing left once the missing values are ignored: the empty reduction, i.e. the identity where one
             # exists (sum 0, prod 1, all True, any False - what np.nansum / np.nanprod return), NaN otherwise
-            if f in ("sum", "prod"):
-                return [IDENT[f]]            # np.nansum / np.nanprod exist and define it
             if f in IDENT:
-                return [IDENT[f], float("nan")]   # all / any: NumPy has no nan-variant, either reading accepted
+                # sum / prod: np.nansum / np.nanprod define it; all / any: "NaNs are ignored as missing values" leaves the empty reduction
+                # np.all([]) / np.any([]) (NaN is not an answer to all / any; the library itself returns the identity for all-NaN slices)
+                return [IDENT[f]]
             return [float("nan")]
         arr = keep
     return [getattr(np, f)(arr)]
